@@ -5,6 +5,7 @@ INDEPENDENT lxml reader (no odfdo code in the projection)."""
 
 from __future__ import annotations
 
+import json
 import random
 from typing import Any
 
@@ -366,9 +367,35 @@ def pyval(c):
     return None if c == E else (0 if c == Z else c)
 
 
+# objects already given to a table as arguments: the caller may pass the SAME Cell / Row / Column object again later (the
+# library copies its arguments by default, so this must behave exactly like passing an equal fresh object)
+_ARG_POOL: dict = {}
+
+
+def _arg(table, rng, kind: str, key, factory):
+    pool = _ARG_POOL.setdefault(id(table), {})
+    if len(_ARG_POOL) > 4000:
+        _ARG_POOL.clear()
+        pool = _ARG_POOL.setdefault(id(table), {})
+    k = (kind, json.dumps(key))
+    if rng is not None and k in pool and rng.random() < 0.5:
+        return pool[k]
+    obj = factory()
+    if rng is not None:
+        pool[k] = obj
+    return obj
+
+
 def apply_op(table, o: dict, rng: random.Random | None = None, enc: str = "max"):
     """Apply one Grid.tla operation record to a real Table."""
     op = o["op"]
+    if op in ("set_cell", "insert_cell", "append_cell") and rng is not None:
+        cell = _arg(table, rng, "cell", [o["c"], o["n"]], lambda: make_cell(o["c"], o["n"]))
+        if op == "set_cell":
+            return table.set_cell((o["x"], o["y"]), cell)
+        if op == "insert_cell":
+            return table.insert_cell((o["x"], o["y"]), cell)
+        return table.append_cell(o["y"], cell)
     if op == "set_cell":
         return table.set_cell((o["x"], o["y"]), make_cell(o["c"], o["n"]))
     if op == "set_value":
@@ -431,13 +458,13 @@ def apply_row_op(row, o: dict, rng: random.Random | None = None):
     if op == "row_set_cell":
         if alt and o["n"] == 1 and o["c"] != S:
             return row.set_value(o["x"], pyval(o["c"]))
-        return row.set_cell(o["x"], make_cell(o["c"], o["n"]))
+        return row.set_cell(o["x"], _arg(row, rng, "cell", [o["c"], o["n"]], lambda: make_cell(o["c"], o["n"])))
     if op == "row_clear":
         return row.clear()
     if op == "row_insert_cell":
-        return row.insert_cell(o["x"], make_cell(o["c"], o["n"]))
+        return row.insert_cell(o["x"], _arg(row, rng, "cell", [o["c"], o["n"]], lambda: make_cell(o["c"], o["n"])))
     if op == "row_append_cell":
-        return row.append_cell(make_cell(o["c"], o["n"]))
+        return row.append_cell(_arg(row, rng, "cell", [o["c"], o["n"]], lambda: make_cell(o["c"], o["n"])))
     if op == "row_delete_cell":
         return row.delete_cell(o["x"])
     if op == "row_set_values":
